@@ -894,6 +894,16 @@ func (self *Pipestance) Lock() error {
 		return &PipestanceLockedError{self.node.top.GetPsid(), self.GetPath()}
 	}
 	verifEvent("LockCheck", "path", self.GetPath())
+	// Create the lock file exclusively, so that if two instances get
+	// here at the same time only one of them takes the lock.
+	if f, err := os.OpenFile(self.metadata.MetadataFilePath(Lock),
+		os.O_WRONLY|os.O_CREATE|os.O_EXCL, 0644); os.IsExist(err) {
+		return &PipestanceLockedError{self.node.top.GetPsid(), self.GetPath()}
+	} else if err != nil {
+		util.LogError(err, "runtime", "Error writing pipestance lock file.")
+	} else {
+		f.Close()
+	}
 	util.RegisterSignalHandler(self)
 	if err := self.metadata.WriteTime(Lock); err != nil {
 		util.LogError(err, "runtime", "Error writing pipestance lock file.")
